@@ -494,7 +494,8 @@ def gen_structured(rng, with_macros=True):
         if rng.random() < 0.5:
             kids.append(Node("Version 1.%d" % rng.randint(0, 9)))
         if rng.random() < 0.4:
-            kids.append(Node("Description\n  about the api"))
+            kids.append(Node(rng.choice(["Description\n  about the api", "Description\n(\n  about the api\n)", "Description\n(\n  about the api\n\n)",
+                                         "Description\n(\n  about\n\n  the api\n)"])))
         roots.append(Node("INFO", kids))
     for i in range(rng.randint(0, 2)):
         roots.append(Node("SERVER @s%d // server %d" % (i, i), [Node('BaseUrl "https://h%d/"' % i)]))
